@@ -419,4 +419,69 @@ def applyEdit (heap : List Baggage) : Edit → List Baggage
 
 def runEdits (heap : List Baggage) (es : List Edit) : List Baggage := es.foldl applyEdit heap
 
+/-! ## accessors (`Member`, `Members`, `Len`) -/
+
+/-- `Baggage.Member(key)`: `v, ok := b.list[key]`; absent ⇒ `newInvalidMember()` = the zero
+`Member{}` (`hasData = false`, here `none`); present ⇒ the member rebuilt from the item under the
+*argument* key with `hasData = true` -/
+def member (b : Baggage) (key : Bytes) : Option Member :=
+  match b.find? (fun e => e.key == key) with
+  | none => none
+  | some e => some ⟨key, e.value, e.props⟩
+
+/-- `Baggage.Members()`: `nil` for an empty list, otherwise one member per map entry (order not
+significant) -/
+def members (b : Baggage) : List Member := if b.length = 0 then [] else b.map (fun e => ⟨e.key, e.value, e.props⟩)
+
+/-- `Baggage.Len()` -/
+def len (b : Baggage) : Nat := b.length
+
+/-! ## contexts (`baggage/context.go`, `internal/baggage/context.go`; no hooks installed) -/
+
+/-- what a context holds under `baggageKey`: `none` = no `baggageState` value at all, `some l` = a
+state with list `l` (the nil list of `ContextWithoutBaggage` is the empty list) -/
+abbrev Ctx := Option Baggage
+
+/-- `ContextWithBaggage(parent, b)` → `ContextWithList(parent, b.list)`: the state of the parent is
+copied, its list replaced -/
+def contextWithBaggage (_parent : Ctx) (b : Baggage) : Ctx := some b
+
+/-- `ContextWithoutBaggage(parent)` → `ContextWithList(parent, nil)` -/
+def contextWithoutBaggage (parent : Ctx) : Ctx := contextWithBaggage parent []
+
+/-- `FromContext(ctx)` → `ListFromContext`: the list of the state, `nil` when there is no state -/
+def fromContext : Ctx → Baggage
+  | none => []
+  | some b => b
+
+/-- `propagation.Baggage.Inject(ctx, carrier)` -/
+def injectCtx (ctx : Ctx) : Option Bytes := inject (fromContext ctx)
+
+/-- `propagation.Baggage.Extract(parent, carrier)`: `carrier.Get` of an absent key is `""`; an empty
+header or a parse error return `parent` itself; otherwise the parsed baggage *replaces* the parent's -/
+def extractCtx (parent : Ctx) (hdr : Option Bytes) : Ctx :=
+  match hdr with
+  | none => parent
+  | some h =>
+    if h.isEmpty then parent
+    else match parse h with
+      | .error _ => parent
+      | .ok b => contextWithBaggage parent b
+
+inductive CtxOp
+  | withBag (recv : Nat) (b : Baggage)
+  | without (recv : Nat)
+  | extract (recv : Nat) (hdr : Option Bytes)
+  | inject (recv : Nat)
+deriving Repr
+
+/-- contexts are immutable values: every operation appends a new context to the heap -/
+def applyCtxOp (heap : List Ctx) : CtxOp → List Ctx
+  | .withBag r b => heap ++ [contextWithBaggage (heap.getD r none) b]
+  | .without r => heap ++ [contextWithoutBaggage (heap.getD r none)]
+  | .extract r h => heap ++ [extractCtx (heap.getD r none) h]
+  | .inject r => heap ++ [heap.getD r none]
+
+def runCtxOps (heap : List Ctx) (ops : List CtxOp) : List Ctx := ops.foldl applyCtxOp heap
+
 end Otel.C11
